@@ -23,6 +23,7 @@ type Trace10 struct {
 	Addon   string `json:"addon,omitempty"`   // add-on digits
 	Par     int    `json:"parity,omitempty"`  // add-on parity pattern
 	Scale   int    `json:"scale,omitempty"`   // 0: row handed to DecodeRow; >0: rendered image at this scale
+	FixK    bool   `json:"fixk,omitempty"`    // Code 93: after the substitution, K is recomputed over data + C (only C fails to verify)
 	// Prev lists symbols read earlier on the same reader instances (instance-reuse history)
 	Prev []*Trace10 `json:"prev,omitempty"`
 }
@@ -395,7 +396,9 @@ func exec10(tr *Trace10, probe func(string)) (string, *fail) {
 		}
 		want := tr.Content + fmt.Sprint(refCheck(tr.Sym, body))
 		if got[:len(got)-1] != tr.Content {
-			return "skip:writer drew other digits than given", nil
+			// a well-formed symbol for another number: whatever its check digit is,
+			// it is not the check digit of the number the caller asked for
+			return "", &fail{"writer/other-number", fmt.Sprintf("%s writer given the body %q emits a well-formed symbol carrying %q: no check digit was computed for the requested number (the standard gives %q)", tr.Sym, tr.Content, got, want)}
 		}
 		if got != want {
 			return "", &fail{"writer/checkdigit", fmt.Sprintf("%s writer given %q emits a symbol carrying %q; the standard's check digit gives %q", tr.Sym, tr.Content, got, want)}
@@ -621,6 +624,11 @@ func execChar(tr *Trace10, probe func(string)) (string, *fail) {
 		vals[tr.Pos] = tr.Repl
 		faulted = true
 		probe("fault.char")
+		if tr.FixK && tr.Kind == "c93" && len(vals) >= 3 && tr.Pos < len(vals)-1 {
+			// the damage is consistent with K: only the C check can notice it
+			vals[len(vals)-1] = ref.Code93Check(vals[:len(vals)-1], 15)
+			probe("fault.char+k_consistent")
+		}
 	} else {
 		probe("fault.none(control)")
 	}
@@ -660,6 +668,13 @@ func execChar(tr *Trace10, probe func(string)) (string, *fail) {
 				return "", &fail{"reader/returns-unverified", what + fmt.Sprintf(": returned %q with raw codes %v that fail mod 103", o.text, raw)}
 			}
 		}
+	}
+	if tr.FixK && ok {
+		probe("probe.valid_symbol_read")
+		return "ok", nil
+	}
+	if tr.FixK {
+		return "", &fail{"reader/accepts-failed-check", what + fmt.Sprintf(": check character C does not verify (K was made consistent with the damage), yet the symbol was read as %q", o.text)}
 	}
 	if !ok || faulted {
 		return "", &fail{"reader/accepts-failed-check", what + fmt.Sprintf(": a single-character substitution was read as %q", o.text)}
@@ -887,7 +902,7 @@ func C10() *kit.Spec {
 		Level:    "fault_enumeration",
 		Rule: "one evaluation = one 1-D symbol through the real writer (fault-free, writer side) or one reference-constructed symbol, possibly with one substitution fault, through the real reader. " +
 			"Enumerated: all 2*10^6 UPC-E bodies through the real writer (check digit carried by the parity pattern == mod-10 of the expanded UPC-A number) and through the real reader (accepts body+check); EAN-8 writer over 10^6 (quick) / all 10^7 (thorough) bodies; " +
-			"for seeded numbers every position x every replacement digit (incl. the parity-encoded first digit of EAN-13 and number system/check of UPC-E); for seeded Code 128 / Code 93 symbols every symbol-character position x every other character; EAN-2 all 100 values x 4 parity patterns; EAN-5 all 100000 values with the right and two other parity patterns, plus seeded values x all 32 patterns. " +
+			"for seeded numbers every position x every replacement digit (incl. the parity-encoded first digit of EAN-13 and number system/check of UPC-E); for seeded Code 128 / Code 93 symbols every symbol-character position x every other character (Code 93 also with K recomputed over the damaged data + C, so that only C can notice); a writer that draws a well-formed symbol of another number than the body it was given has not computed that body's check digit; EAN-2 all 100 values x 4 parity patterns; EAN-5 all 100000 values with the right and two other parity patterns, plus seeded values x all 32 patterns. " +
 			"distinct_nontrivial = distinct seeded traces that carry a fault",
 		StateMetric: "distinct (symbology, number, fault) traces; sweep counters",
 		Assumptions: []string{
@@ -902,7 +917,7 @@ func C10() *kit.Spec {
 			"bar/space row medium, rendering":                              "simulated (harness)",
 			"onedref (check digits, patterns, symbol constructor)":         "reference model / stub sender (harness)",
 		},
-		FaultKinds:  []string{"none(control)", "digit", "char", "addon"},
+		FaultKinds:  []string{"none(control)", "digit", "char", "char+k_consistent", "addon"},
 		SimTimeNote: "none: no timers; logical steps = symbols transmitted",
 		NumRuns:     func(tier string) int { return len(jobs(tier)) },
 		Run: func(c *kit.Ctx) {
@@ -966,8 +981,8 @@ func C10() *kit.Spec {
 					}
 					got, perr := parseUPCEAN("upce", row)
 					want := body + fmt.Sprint(ref.UPCECheck(digitsOf(body)))
-					if perr != nil || got[:7] != body {
-						c.Count("skipped.writer output outside the check position differs", 1)
+					if perr != nil {
+						c.Count("skipped.writer output not parseable by the reference", 1)
 					} else if got != want {
 						tr := &Trace10{Kind: "writer", Sym: "upce", Content: body, Pos: -1}
 						_, f := exec10(tr, probe)
@@ -1048,8 +1063,8 @@ func C10() *kit.Spec {
 					}
 					got, perr := parseUPCEAN("ean8", row)
 					want := body + fmt.Sprint(ref.Mod10(digitsOf(body)))
-					if perr != nil || got[:7] != body {
-						c.Count("skipped.writer output outside the check position differs", 1)
+					if perr != nil {
+						c.Count("skipped.writer output not parseable by the reference", 1)
 					} else if got != want {
 						tr := &Trace10{Kind: "writer", Sym: "ean8", Content: body, Pos: -1}
 						if _, f := exec10(tr, probe); f != nil {
@@ -1180,6 +1195,13 @@ func C10() *kit.Spec {
 						}
 						if !do(&Trace10{Kind: kind, Sym: sym, Vals: vals, Pos: pos, Repl: v, Scale: scale}, true) {
 							return
+						}
+						// Code 93 has two check characters: damage that K happens to be
+						// consistent with must still be caught by C
+						if kind == "c93" && pos < len(vals)-1 && (pos == len(vals)-2 || v%4 == 0) {
+							if !do(&Trace10{Kind: kind, Sym: sym, Vals: vals, Pos: pos, Repl: v, Scale: scale, FixK: true}, true) {
+								return
+							}
 						}
 					}
 				}
